@@ -11,7 +11,7 @@ GO = "Go compiler/runtime and standard library (encoding/binary, time, hash/crc3
 
 PROPS = {
     "C12": {
-        "streams": [S("codec", 1500, 40000, vm=(60, 600))],
+        "streams": [S("codec", 1500, 40000, vm=(60, 600)), S("codecid", 60, 1500, vm=(4, 40), vm_maxlen=5000)],
         "trusted": [GO],
         "assumptions": ["time.Time is projected to (seconds, nanoseconds, zone offset); monotonic readings are dropped by MarshalBinary",
                         "nil and empty byte slices are identified"],
@@ -24,7 +24,7 @@ PROPS = {
                         "AppendedAt is projected to the instant (seconds, nanoseconds); nil and empty byte slices are identified",
                         "batchSize is a mathematical integer in the model (Go int does not overflow below 2^63 bytes of log data)",
                         "StableStore: byte and uint64 key spaces are disjoint; a key never set and an empty value are identified in the destination; what a source does for a key never set is a parameter of the model (InmemStore: Get fails; raft-boltdb: Get and GetUint64 fail; WAL: neither fails)"],
-        "rule": "seeded generator: 9 store pairings x source length 0..80 (thorough ..400) x first index (1, small, 2^(7k), last = MaxUint64-1) x batchBytes (0, 1, negative, MinInt64, MaxInt64, around 1..4 entries, around the whole log) x cancellation point x injected GetLog/StoreLogs failure x nil/buffered/unbuffered progress channel; CopyStable over 9 pairings x missing keys x extra keys x cancellation; distinct = distinct input lines",
+        "rule": "seeded generator: 9 store pairings x source length 0..80 (thorough ..400) x first index (1, small, 2^(7k), last = MaxUint64-1) x batchBytes (0, 1, negative, MinInt64, MaxInt64, around 1..4 entries, around the whole log) x cancellation point x injected GetLog/StoreLogs failure x source FirstIndex/LastIndex failure (injected, and a really closed WAL / raft-boltdb source; every pairing) x nil/buffered/unbuffered progress channel; CopyStable over 9 pairings x missing keys x extra keys x cancellation; distinct = distinct input lines",
     },
     "C07": {
         "streams": [S("fstrace", 40, 400, vm=(8, 40), vm_maxlen=40000, timeout=3000)],
@@ -36,4 +36,99 @@ PROPS = {
                         "C07_model_traces_ok is conditional on the caller of the fs layer syncing every written file before it acknowledges (wf_ops) -- the segment writer's sync path; the fst lines check that on the real traces"],
         "rule": "6 fixed scenarios (create+first commit, rotation, head/tail truncation deleting files, close/reopen/append, reset of the empty first segment, oversized batch/truncate to empty) + seeded random WAL workloads (segment sizes 512..8192, appends, waits, truncations, close/reopen) run on the production fs.FS + BoltMetaDB under strace; fso: seeded fs-layer call sequences (create/openwriter/write/sync/close/delete/meta init/commit) compared event by event with the model's fs_trace; distinct = distinct input lines",
     },
+    "C20": {
+        "streams": [S("seqapi", 150, 3000, vm=(5, 100), vm_maxlen=5000)],
+        "trusted": [GO, "go/ast translator harness/cmd/wh/facts.go (call-site scan) and the compiled MetricDefinitions tables"],
+        "assumptions": ["segment_rotations has no specification-level total (it is compared with the model only)"],
+        "rule": "seeded op sequences (stores incl. invalid shapes, deletes at all positions, reads, stable ops, reopen) over 7 segment sizes, on crashfs and on the real fs+BoltDB; metrics summary compared with the model after every M op and with independently computed true totals; distinct = distinct input lines",
+    },
+    "C05": {
+        "streams": [S("seqapi", 250, 6000, vm=(6, 120), vm_maxlen=5000)],
+        "selftests": [{"name": "crash_refinement_stmt (crash-free histories included)", "args": [], "n": (1500, 40000)}],
+        "trusted": [GO, BBOLT],
+        "assumptions": ["indexes in [1, 2^64-2], one batch < 1 GiB, segment size < 1 GiB (no 32/64-bit wrap)", "rotation is awaited right after each StoreLogs (W barrier)"],
+        "rule": "seeded op sequences (valid and invalid appends, deletes at every position class, reads around the boundaries, stable ops, reopen) over 7 segment sizes down to one entry per segment, on crashfs and on the real fs + BoltDB; every result, first/last, every entry, metrics, persisted metadata, directory listing and the I/O trace compared with the model; independent reference-log oracle; distinct = distinct input lines",
+    },
+    "C01": {
+        "streams": [S("crash", 250, 6000, vm=(10, 100), vm_maxlen=8000)],
+        "selftests": [{"name": "crash_refinement_stmt", "args": [], "n": (1500, 40000)}],
+        "trusted": [GO, BBOLT, "segment-level recovery law (a torn batch is recovered as absent, a complete one as present) proved in Seg/RecoverFacts.v under the explicit no-CRC-collision hypothesis"],
+        "assumptions": ["8-byte chunk granularity of torn writes (PSOW, README)", "bbolt commits are atomic and durable"],
+        "rule": "seeded workloads; power loss after a random I/O action (never inside a run of deletions), adversary keeps/drops every non-durable file and every pending batch independently, nested second crash in 50%; then Open, audit, usability probe, clean reopen; oracle = acknowledged entries survive and the recovered log is exactly the acknowledged or the in-flight state; distinct = distinct input lines",
+    },
+    "C10": {
+        "streams": [S("faults", 250, 6000, vm=(10, 100), vm_maxlen=8000)],
+        "selftests": [{"name": "fault_safety_stmt", "args": ["f"], "n": (1500, 40000)}],
+        "trusted": [GO, BBOLT],
+        "assumptions": ["faults are transient single failures of one VFS/MetaStore call with no partial effect (a failed write writes nothing; a failed fsync leaves the data written)", "deletions are exempt from fault injection (Go map order makes their order nondeterministic)", "I/O error + restart + later power loss is outside the model (adopted unsynced data is treated as synced)"],
+        "rule": "seeded workloads with a fault armed before 1/3 of the calls (the k-th action from then fails, k in 0..4), in-process audits, restart, reopen, usability probe; oracle = acknowledged entries readable and unchanged in-process and after reopen; distinct = distinct input lines",
+    },
+    "C09": {
+        "streams": [S("format", 250, 8000, vm=(16, 400)), S("golden", 1, 1, vm=(8, 18), vm_maxlen=6000)],
+        "trusted": [GO, "README.md sections 'Segment Files', 'Frames', 'Alignment', 'Sealing' as transcribed in coq/Fmt/ReadmeSpec.v (literal constants, independent encoder/decoder)",
+                    "golden fixtures under golden/ were written by `wh mkgolden` with the tree pinned in round 1"],
+        "assumptions": ["segment files stay below 2^32 bytes (offsets are uint32 in the format; guard of every theorem)",
+                        "payload bytes are bytes (wf_bytes) where a CRC value is read back",
+                        "README wording 'or just after the file header' for the first commit's CRC range is a documentation discrepancy (DESIGN.md section 10): code and spec include the header"],
+        "rule": "format: seeded histories of appends (all padding residues, payloads that look like frames), size/forced sealing, tail and sealed reads, file dump byte-for-byte; golden: 5 committed directories (single tail, sealed+tail, head truncation, tail truncation + re-append, custom start index), each opened by the current code, each segment file decoded by the README-only parser; distinct = distinct input lines",
+    },
+    "C15": {
+        "streams": [S("sizes", 120, 400, vm=(12, 200))],
+        "trusted": [GO],
+        "assumptions": ["L1 (single segment file) form; the WAL-level lifting is part of C05/C01",
+                        "segment files stay below 2^32 bytes",
+                        "the 64 MiB +- 1 cases run on the implementation only (thorough tier): a 128 MiB hex line is too large for the model driver; the theorems cover every size"],
+        "rule": "sizes: payload 0 and all residues mod 8 alone and at each batch position, segment limit +- frame overhead for limits 256/512/1024, entries larger than the whole segment, payloads 65512..65544 around the 64 KiB read buffer (4 per quick run, all 33 in thorough), random mixes; thorough adds MaxEntrySize-1, MaxEntrySize, MaxEntrySize+1 alone and mid-batch",
+    },
 }
+PROPS["C11"] = {
+    "streams": [S("corrupt", 400, 20000, vm=(16, 200), vm_maxlen=5000), S("openfail", 28, 280, vm=(0, 0)),
+                S("codec", 800, 30000, vm=(20, 200))],
+    "trusted": [GO, BBOLT],
+    "assumptions": ["'nothing locked or open after a failed Open', 'never hangs' and the allocation bound of the Go code are observed (watchdog, runtime.MemStats), not proved; the model proves termination (fuel bound) and allocation bounds of its own explicit accounting"],
+    "rule": "corrupt: valid tails and sealed files damaged by bit flips, 8-byte splices, truncation at any offset, length-field edits (0xffffffff, MaxEntrySize+1, small), zero runs, frame-type bytes; then recovery or sealed open, reads, dump - outcome kind and recovered entries compared with the model, watchdog + allocation measurement; openfail: 7 kinds of damage to real directories (missing / short / zeroed / bad-magic / swapped-header sealed segment, garbage metadata record, foreign codec), Open must fail, a second Open in the same process must not block and, damage undone, must present the original log; codec: malformed encodings (7 mutation kinds) must yield errors, never panics",
+}
+
+VFY_TRUSTED = [GO, "github.com/segmentio/fasthash/fnv1a -- modelled (Base/Fnv.v) and differentially tested: every sum in every report is an observable of the vfy stream",
+               "raft.InmemStore / the WAL under a contract guard (harness guardStore: contiguous appends, prefix/suffix deletes = the C05 spec the model uses); at-rest corruption and StoreLogs faults are injected by that wrapper"]
+VFY_ASSUME = ["the model is sequential: StoreLogs and DeleteRange of one LogStore are atomic with respect to each other; the one interleaving raft really produces (compaction = head truncation from the snapshot goroutine during StoreLogs) leaves the verifier state untouched since 8c5a9f9 and is exercised on the implementation by the #race case of the vfy stream on every run",
+              "indexes are non-zero and below 2^64-1 (no uint64 wrap in idx+1 / max+1)",
+              "the verifier reads a range atomically with respect to writers (property quantifier: ranges not modified while their verification runs); the store contents at that moment are an arbitrary parameter sv of the theorems",
+              "the bootstrap exception (index 1 + LogConfiguration hashes to 0) is the explicit hypothesis no_bootstrap of the C17 range theorems"]
+VFY_RULE = ("seeded generator of multi-node histories: clusters of 2-3 nodes (leader appends, checkpoints, replication with random batch splits, "
+            "leadership changes with tail truncation of conflicting suffixes, follower restarts, head truncations, in-flight and at-rest single-field mutations, "
+            "blocked ReportFn, injected store failures), per-position mutation sweeps (13 mutation kinds x in flight / at rest on follower / at rest on leader / swapped entries), "
+            "invalid-operation soups (gaps, middle deletes, foreign Extensions, failing checkpoint fn) and drop scenarios; 1 line in 12 (quick) / 4 (thorough) runs over the real WAL; "
+            "distinct = distinct input lines")
+for _pid in ("C16", "C17", "C18"):
+    PROPS[_pid] = {
+        "streams": [S("vfy", 1500, 20000, vm=(40, 300), vm_maxlen=2500)],
+        "trusted": VFY_TRUSTED, "assumptions": VFY_ASSUME, "rule": VFY_RULE,
+    }
+for _p in ("C02", "C03", "C04", "C13"):
+    PROPS[_p] = dict(PROPS["C01"])
+PROPS["C02"]["streams"] = [S("crash", 250, 6000, vm=(10, 100), vm_maxlen=8000), S("segcrash", 300, 8000, vm=(6, 60), vm_maxlen=6000)]
+PROPS["C08"] = dict(PROPS["C05"])
+PROPS["C08"]["streams"] = [S("seqapi", 200, 5000, vm=(5, 100), vm_maxlen=5000), S("crash", 120, 3000, vm=(5, 50), vm_maxlen=8000)]
+
+PROPS['C14'] = {'assumptions': ['single writer goroutine (StoreLogs/DeleteRange are issued by one thread of the schedule); any number of readers, stable-store callers and '
+                 'Close callers',
+                 'in-memory VFS/MetaStore emulate *os.File (read after Close fails) and BoltMetaDB (calls after Close fail)',
+                 'proved for all schedules: after_close, mutual exclusion; no-panic is proved for states satisfying the tested invariant Inv1; deadlock '
+                 'freedom, rotator exit and handle release are judged on the implementation by the sched14 oracles'],
+ 'rule': 'every API method x 9 call windows x 5 stages of Close x 3 initial logs; writer waiting for a pending rotation x rotator stage x Close stage; random '
+         'programs/schedules; distinct = distinct input lines',
+ 'streams': [{'n': (4500, 60000), 'name': 'sched14', 'timeout': 3000, 'vm': (25, 250), 'vm_maxlen': 400}],
+ 'trusted': ['Go compiler/runtime and standard library (encoding/binary, time, hash/crc32) -- differentially tested, not verified',
+             "Go runtime scheduler/memory model: the model's atomic steps are the code's atomic actions and hook points; goroutine exit and file-handle "
+             'release are observed (runtime.Stack, in-memory VFS accounting), not proved']}
+
+PROPS['C06'] = {'assumptions': ['single writer; base-index resets are run on the implementation only (not in the model)',
+                 'linearizability and use-after-close freedom are not proved: every read of every forced and free-running history is checked by the Go history '
+                 'checker (mirror of Readers.lin_check)'],
+ 'rule': 'writer programs (append, rotation, head truncation with finalisation, tail truncation + re-append of other content, whole-log deletion) x reads x '
+         'reader window x writer progress; two readers on one old state; random programs/schedules; 2 stress runs (8 readers); distinct = distinct input lines',
+ 'streams': [{'n': (2200, 40000), 'name': 'sched06', 'timeout': 3000, 'vm': (20, 200), 'vm_maxlen': 400}],
+ 'trusted': ['Go compiler/runtime and standard library (encoding/binary, time, hash/crc32) -- differentially tested, not verified',
+             'Go memory model: data-race freedom is judged by the race detector on the harness binary (thorough tier), the model-level statement is '
+             'C06_no_conflict_partial']}
